@@ -138,6 +138,19 @@ pub static mut MON: Mon = MON0;
 /// 1-based index of the rusqlite call that fails (0 = none)
 pub static mut FAULT_AT: u16 = 0;
 
+/// native replay only: back to the state a fresh process starts in
+pub fn reset_for_replay() {
+    unsafe {
+        DB = EMPTY_DB;
+        SAVED = EMPTY_DB;
+        STMT_SNAP = EMPTY_DB;
+        CONNS = NOCONNS;
+        WRITER = MAXCONN;
+        MON = MON0;
+        FAULT_AT = 0;
+    }
+}
+
 pub fn db() -> &'static mut Db {
     unsafe { &mut DB }
 }
